@@ -415,18 +415,36 @@ def run_cases(ctx, binpath, args, cases, label="cases", timeout=3600, crash_is_v
     if procs > 1 and len(lines) > procs:
         chunk = min(chunk, (len(lines) + procs - 1) // procs)
 
-    def one(k):
-        part = lines[k:k + chunk]
-        pth = os.path.join(ctx.scratch, "%s-chunk%d.jsonl" % (label, k // chunk))
+    seq = [0]
+
+    def run_part(part, base):
+        seq[0] += 1
+        tag = "%s-%d" % (label, seq[0])
+        pth = os.path.join(ctx.scratch, "%s-chunk.jsonl" % tag)
         with open(pth, "w") as fh:
             fh.write("\n".join(part) + "\n")
-        m, s_, c = _run_cases(ctx, binpath, args, pth, label="%s-%d" % (label, k // chunk), timeout=timeout,
-                              crash_is_violation=crash_is_violation, max_crashes=max_crashes)
+        try:
+            m, s_, c = _run_cases(ctx, binpath, args, pth, label=tag, timeout=timeout,
+                                  crash_is_violation=crash_is_violation, max_crashes=max_crashes)
+        except Infra as e:
+            # in-process stores that a driver abandons keep a few descriptors each (leaked goroutines of the
+            # store hold them): a chunk that runs out of descriptors is replayed in two halves
+            if "too many open files" in str(e) and len(part) >= 100:
+                os.remove(pth)
+                h = len(part) // 2
+                log("[run_cases] %s: descriptors exhausted, replaying %d cases in two halves" % (label, len(part)))
+                m1, s1, c1 = run_part(part[:h], base)
+                m2, s2, c2 = run_part(part[h:], base + h)
+                return m1 + m2, {k_: s1[k_] + s2[k_] for k_ in s1}, c1 + c2
+            raise
         for o in m:
             if isinstance(o.get("n"), int):
-                o["n"] += k
+                o["n"] += base
         os.remove(pth)
         return m, s_, c
+
+    def one(k):
+        return run_part(lines[k:k + chunk], k)
     starts = [k for k in range(0, len(lines), chunk)]
     if procs > 1:
         import concurrent.futures
@@ -485,6 +503,8 @@ def _run_cases(ctx, binpath, args, cases, label="cases", timeout=3600, crash_is_
                     mism.append(o)
             break
         # the driver died: locate the culprit serially
+        if "too many open files" in err:
+            raise Infra("driver died: too many open files")
         if len(crashes) >= max_crashes:
             if crash_is_violation:
                 # several different cases kill the store: enough evidence, stop replaying this chunk
